@@ -118,6 +118,14 @@ theorem decls_generator_functions :
       ["tscommon.CollectServiceMessages", "tscommon.GenerateInterface", "tscommon.GenerateEnumType",
        "tscommon.WriteErrorTypes"] := by decide
 
+/-- the kind → TypeScript type table of the model (`Impl.scalarTy`) is the `switch` of
+`tscommon.TSScalarType` as it stands in the source now. -/
+theorem scalar_table_from_source : ∀ k : Kind,
+    Gen.TsDecl.scalarTable.lookup k.name =
+      some (match scalarTy k with | .str => "string" | .num => "number" | .bool => "boolean" | _ => "unknown") := by
+  intro k
+  cases k <;> decide
+
 /-- the result type of an RPC (root unwrap included) is computed by the same code in both. -/
 theorem result_type_same : Gen.TsDecl.clientResolveOutput = Gen.TsDecl.serverResolveOutput := rfl
 
